@@ -276,7 +276,16 @@ Qed.
 
 (* ================================================================ translate *)
 Theorem translate_spec (f : pt -> R) t p : Translate f t p = f (psub p t).
-Proof. reflexivity. Qed.
+Proof.
+  unfold Translate.
+  (* the source may keep an exact-zero guard (`if translation == Zero { return field }`): when it fires every
+     component of t is 0 and p - t = p *)
+  repeat match goal with |- context [if ?c then _ else _] => destruct c eqn:?G end; try reflexivity.
+  all: repeat match goal with H : andb _ _ = true |- _ => apply andb_prop in H; destruct H end.
+  all: carrier_R; repeat match goal with H : Reqb _ _ = true |- _ => apply Reqb_true in H end.
+  all: destruct p as [px py pz], t as [tx ty tz]; unfold v3_zero in *; cbn [v3x v3y v3z] in *; carrier_R; subst.
+  all: f_equal; unfold psub; cbn [v3x v3y v3z]; f_equal; ring.
+Qed.
 
 (* the translated field is negative exactly on the shape moved by +t *)
 Theorem translate_sign (f : pt -> R) t p : Translate f t (padd p t) < 0 <-> f p < 0.
@@ -286,4 +295,8 @@ Proof.
 Qed.
 
 Theorem translate_lipschitz (f : pt -> R) t : lipschitz1 f -> lipschitz1 (Translate f t).
-Proof. intros Hf. apply (lipschitz1_translate f t Hf). Qed.
+Proof.
+  intros Hf. apply (lipschitz1_ext (fun p => f (psub p t))).
+  - intros p. symmetry. apply translate_spec.
+  - apply (lipschitz1_translate f t Hf).
+Qed.
